@@ -14,6 +14,7 @@ Proved: `C06_partial` (= the full statement under `NoEviction`), `C06_static` (s
 -/
 import Verif.Lemmas.StateCacheWitness
 import Verif.Lemmas.StateCacheBound
+import Verif.Lemmas.StateCacheDrop
 namespace Verif.Props.C06
 open Verif.SC
 
@@ -74,6 +75,45 @@ theorem C06_static (capK maxDepth : Nat) (ops : List (Op H K B V))
     (hC : (ops.filter (fun o => o.isCommit)).length ≤ maxDepth)
     (hR : ∀ op ∈ ops, op.isRemove = false) : AllOK (Sys.new capK maxDepth) [] ops :=
   C06_partial capK maxDepth ops (noEviction_of_counts capK maxDepth ops hK hC hR)
+
+/-! ### dropping a whole version map: `StateCache.Remove(key)` and evictions from the outer key LRU
+
+`Op.srem k` drops the version map of `k` at an arbitrary point of a history; this is `StateCache.Remove` and
+over-approximates every eviction policy of the outer key cache (capacity `Verif.Gen.StateCacheFacts.capKeys` = 102 400
+in the code). The statement "no LRU evicts, Removes anywhere ⇒ every lookup correct" is FALSE when a child block is
+committed before its parent (`remove_unsafe_out_of_order`) and TRUE when blocks are committed in ancestor order
+(`remove_safe_in_order`): a dropped map only turns hits into misses. -/
+
+/-- full statement for histories with `Remove`: no LRU `Add` evicts (the counter moves only at Removes) ⇒ all lookups ok -/
+def C06_remove_full : Prop :=
+  ∀ (capK maxDepth : Nat) (ops : List (Op Nat Nat Nat Nat)),
+    NoLRUEviction (Sys.new capK maxDepth) ops → AllOK (Sys.new capK maxDepth) [] ops
+
+/-- `remove_safe_in_order`: with `Remove(key)` (or an outer-cache eviction of a key's whole map) at arbitrary points,
+    if no LRU `Add` evicts and no block is committed after one of its descendants (every tree along the run is in
+    ancestor order), every hit at every layer still carries exactly the demanded value and a removed key misses. -/
+theorem remove_safe_in_order (capK maxDepth : Nat) (ops : List (Op H K B V))
+    (hne : NoLRUEviction (Sys.new capK maxDepth) ops)
+    (hio : InOrderRun (Sys.new capK maxDepth) [] ops) : AllOK (Sys.new capK maxDepth) [] ops :=
+  Sys.run_ok_drops _ [] (fun _ => 0) ops (SysInv.init capK maxDepth) (fun _ => Nat.le_refl _) hne hio
+
+/-- Q = block 11 (child of 10) writes k := 2 and is committed FIRST; `Remove(k)`; then its parent P = block 10 writes
+    k := 1 and is committed; the lookup at Q finds no entry for Q (dropped), follows Q's link to P and returns P's value -/
+def witnessRemove : List (Op Nat Nat Nat Nat) :=
+  [.blk 1 11 10, .bset 1 0 2, .bcommit 1, .srem 0, .blk 0 10 0, .bset 0 0 1, .bcommit 0]
+
+theorem remove_unsafe_out_of_order : ¬ C06_remove_full := by
+  intro h
+  have hall := h 200 2000 (witnessRemove ++ [.sget 0 11]) (by
+    simp only [witnessRemove, List.cons_append, List.nil_append, NoLRUEviction, Op.isRemove]
+    decide)
+  have hop := AllOK.nth witnessRemove (.sget 0 11) [] hall
+  have hhit : ((((Sys.new 200 2000 : Sys Nat Nat Nat Nat).run witnessRemove).1).step (.sget 0 11)).2 = .hit 1 := by decide
+  have hans := (hop [] 11 0 rfl).1 1 hhit
+  have horacle : Chain ((Sys.new 200 2000 : Sys Nat Nat Nat Nat).treeRun [] witnessRemove) 0 11 (.val 2) :=
+    oracleN_sound (n := 2) (by decide)
+  have : Entry.val (1 : Nat) = Entry.val 2 := Chain.det hans horacle
+  cases this
 
 /-- `fork_independent`: the answer for `(k, b)` only reads the blocks on `b`'s own ancestor chain — two trees that agree
     on those blocks give the same answer. -/
